@@ -117,6 +117,13 @@ class ServerBase(object):
         else:
             raise ctx.in_error
 
+        self.ignored_to_null(ctx)
+
+    @staticmethod
+    def ignored_to_null(ctx):
+        """An ``Ignored`` return value is only meaningful to in-process callers.
+        It goes out as null return value(s) over the wire."""
+
         if isinstance(ctx.out_object, (list, tuple)) \
                     and len(ctx.out_object) > 0 \
                     and isinstance(ctx.out_object[0], Ignored):
